@@ -56,6 +56,22 @@ type Op struct {
 	Name string // system call name and ordinal, for injection
 	Ord  int
 	Errn string
+	Note string // why the call has no counterpart in the model's alphabet (never a harness error)
+}
+
+// String is the readable form of a normalised call (for observations)
+func (o Op) String() string {
+	s := fmt.Sprintf("%s %s if%d day%d col%d", o.Kind, o.A.Kind, o.A.Iface, o.A.Day, o.A.Col)
+	if o.Kind == "write" || o.Kind == "seek" {
+		s += fmt.Sprintf(" off%d len%d", o.Off, o.Len)
+	}
+	if !o.OK {
+		s += " FAILED " + o.Errn
+	}
+	if o.Note != "" {
+		s += " [" + o.Note + "]"
+	}
+	return s
 }
 
 var lineRe = regexp.MustCompile(`^(\w+)\((.*)\)\s+= (.+)$`)
@@ -194,11 +210,14 @@ func PathRef(root, p string, cur int) (Ref, bool) {
 				r.Col = i
 			}
 		}
-		if r.Col < 0 {
-			return Ref{}, false
+		if r.Col < 0 { // a column file the model does not know: like any other foreign file
+			r.Kind, r.Tmp, r.Col = "tmp", cur, 0
 		}
 	default:
-		return Ref{}, false
+		// any other file inside a day directory is treated as "the temporary (metadata) file": what it is
+		// is decided by what the code does with it (the model expects CreateTemp ... rename onto .blockmeta)
+		r.Kind = "tmp"
+		r.Tmp = cur
 	}
 	return r, true
 }
@@ -247,8 +266,10 @@ func Normalise(calls []Sys, root string, ids []int) ([]Op, error) {
 				op.Kind = "openw"
 			case strings.Contains(c.Args, "O_RDONLY") && ref.Kind == "meta":
 				op.Kind = "openr"
+			case strings.Contains(c.Args, "O_CREAT"):
+				op.Kind, op.Note = "openw", "unexpected open flags: "+c.Args // a shape the model does not produce
 			default:
-				return nil, fmt.Errorf("unexpected open of a DB path: %s(%s)", c.Name, c.Args)
+				op.Kind, op.Note = "openr", "unexpected open: "+c.Args
 			}
 			op.A = ref
 			if ok {
@@ -261,7 +282,7 @@ func Normalise(calls []Sys, root string, ids []int) ([]Op, error) {
 			ref, isdb := PathRef(root, strs[0][1], curID())
 			if !isdb {
 				if strs[0][1] == root {
-					return nil, fmt.Errorf("unexpected mkdir of the DB root")
+					ops = append(ops, Op{Kind: "other", OK: ok, Name: c.Name, Ord: c.Ord, Note: "mkdir of the DB root"})
 				}
 				continue
 			}
@@ -276,7 +297,8 @@ func Normalise(calls []Sys, root string, ids []int) ([]Op, error) {
 				continue
 			}
 			if !adb || !bdb {
-				return nil, fmt.Errorf("rename across the DB boundary: %s", c.Args)
+				ops = append(ops, Op{Kind: "other", OK: ok, Name: c.Name, Ord: c.Ord, Note: "rename across the DB boundary: " + c.Args})
+				continue
 			}
 			if a.Kind == "day" && b.Kind == "day" {
 				op.Kind = "renamedir"
@@ -324,17 +346,17 @@ func Normalise(calls []Sys, root string, ids []int) ([]Op, error) {
 				if ok {
 					n := firstInt(c.Ret)
 					if n != op.Len {
-						return nil, fmt.Errorf("short write in a fault-free position: %s = %s", c.Args, c.Ret)
+						op.Note = "short write: " + c.Ret
+						op.Len = n
 					}
 					fi.pos += n
 				}
 			case "lseek":
 				op.Kind = "seek"
 				f := strings.Split(c.Args, ",")
-				if len(f) != 3 {
-					return nil, fmt.Errorf("unexpected lseek %s", c.Args)
+				if len(f) >= 2 {
+					op.Off = firstInt(f[1])
 				}
-				op.Off = firstInt(f[1])
 				if ok {
 					// whatever the whence: the resulting absolute position is what the model's OSeek carries
 					op.Off = firstInt(c.Ret)
@@ -346,7 +368,7 @@ func Normalise(calls []Sys, root string, ids []int) ([]Op, error) {
 					delete(fds, fd)
 				}
 			default:
-				return nil, fmt.Errorf("unexpected %s on a DB file", c.Name)
+				op.Kind, op.Note = "other", "unexpected "+c.Name+" on a DB file: "+c.Args
 			}
 		default:
 			continue
@@ -637,7 +659,8 @@ func Digest(root string) (*Tree, error) {
 						}
 						ref, ok := PathRef(root, filepath.Join(root, ie.Name(), ye.Name(), me.Name(), de.Name(), fe.Name()), 0)
 						if !ok {
-							return nil, fmt.Errorf("unexpected file %s", fe.Name())
+							dd.NTmp++ // foreign entry: counts like a leftover file, the model will disagree
+							continue
 						}
 						switch ref.Kind {
 						case "meta":
